@@ -783,9 +783,15 @@ def _parse_source_for_lambda(
 
     # If this is a function, then things are going to be very easy.
     if start_token.string == "def":
-        function_source = _realign_indent(inspect.getsource(ast_source))
-        a_module = ast.parse(function_source)
-        lda = rewrite_func_as_lambda(a_module.body[0])  # type: ignore
+        function_source = inspect.getsource(ast_source)
+        if function_source[:1] in (" ", "\t"):
+            # An indented `def` is parsed as the body of a block rather than moved to the left:
+            # moving its lines would also move the lines of a multi-line string inside it.
+            a_module = ast.parse("if True:\n" + function_source)
+            function_def = a_module.body[0].body[0]  # type: ignore
+        else:
+            function_def = ast.parse(function_source).body[0]
+        lda = rewrite_func_as_lambda(function_def)  # type: ignore
     else:
         # Grab all the lambdas on a single line
         lambdas_on_a_line = defaultdict(list)
